@@ -129,6 +129,9 @@ func oracleAlias(r *rng, n int, st *oracleStats) []oracleFailure {
 	}
 	for i := 0; i < n; i++ {
 		st.Evaluations++
+		if len(st.Samples) < 1 {
+			st.Samples = append(st.Samples, "history of InsertOne/InsertMany/UpdateOne(upsert)/ReplaceOne/Distinct/Find/FindOneAndUpdate/BulkWrite calls with ids such as {x: 1, y: [1, \"s\"]} and Binary{0, [k 2 3]}; after each call every argument and every returned value is scribbled over and the catalog re-dumped")
+		}
 		if runAliasHistory(r, st, add) {
 			st.Nontrivial++
 		}
